@@ -1236,7 +1236,9 @@ func vPayload(n int, stunLike bool) []byte {
 		if n < 20 {
 			b = bytes.Repeat([]byte{0x5a}, 20)
 		}
-		b[0], b[1] = 0, 1
+		// "parses as STUN" is stun.IsMessage: 20 bytes or more with the magic cookie at offset 4 - whatever the first
+		// bytes are (an RTP-looking 0x80, 0xff, …); the first two bytes vary with the length asked for
+		b[0], b[1] = [...]byte{0x00, 0x01, 0x80, 0xff, 0x04, 0x40, 0x03, 0x7f}[n%8], byte(n)
 		b[4], b[5], b[6], b[7] = 0x21, 0x12, 0xa4, 0x42
 	}
 	return b
